@@ -181,9 +181,15 @@ def r18_2(ctx: Ctx, E: Effects, rule="R18.2"):
     exempted = []
     for f, e in list(hits):
         for (fq, sym), why in R18_2_EXEMPT.items():
-            if f.qual == fq and ("item of %s" % sym) == e.target:
+            if f.qual != fq or not e.target.startswith("item of "):
+                continue
+            local = e.target[len("item of "):]
+            # the exempted storage is identified by what the local aliases, not by the local's name
+            aliases = [s_ for s_ in walk_no_nested(f.node) if isinstance(s_, ast.Assign) and norm(s_.targets[0]) == local
+                       and norm(s_.value) == "self._available_mgro_ordered"]
+            if aliases or local == "self._available_mgro_ordered":
                 hits.remove((f, e))
-                exempted.append({"function": fq, "symbol": sym, "reason": why})
+                exempted.append({"function": fq, "symbol": "self._available_mgro_ordered (local `%s`)" % local, "reason": why})
     ctx.extra["R18.2_exemptions"] = exempted
     for f, e in hits:
         ctx.ob(rule, f, e.text, False,
@@ -268,8 +274,8 @@ def r18_4(ctx: Ctx, E: Effects, rule="R18.4"):
     g = mol.getters.get("atoms_positions")
     ok = False
     if g is not None:
-        txt = ast.unparse(g.node)
-        ok = "for res in self._residues" in txt and "res.atoms_positions" in txt and "concatenate" in txt
+        from ..pat import has as phas
+        ok = phas(g.node, "np.concatenate([V_r.atoms_positions for V_r in self._residues])")
     ctx.ob(rule, g, "Molecule.atoms_positions", ok, "a molecule's positions are the concatenation over all its residues",
            node=g.node if g else None)
     s = mol.setters.get("atoms_positions")
@@ -294,7 +300,11 @@ def r18_4(ctx: Ctx, E: Effects, rule="R18.4"):
                "the centre is recomputed from the current positions on every access (no cached value that a write through a "
                "live atom view would leave stale)", node=g_.node)
     it = mol.methods.get("__iter__")
-    oki = it is not None and "for res in self._residues" in ast.unparse(it.node) and "for atom in res" in ast.unparse(it.node)
+    from ..pat import find as pfind2
+    oki = False
+    if it is not None:
+        outer = pfind2(it.node, "for V_r in self._residues: ...")
+        oki = bool(outer) and bool(pfind2(outer[0][0], "for V_a in %s: ..." % outer[0][1]["V_r"]))
     ctx.ob(rule, it, "Molecule.__iter__", bool(oki), "iterating a molecule visits every atom of every residue in order",
            node=it.node if it else None)
 
